@@ -66,7 +66,9 @@ HandleCalls(s) ==
     UNION {{[C0 EXCEPT !.op = "read", !.h = h, !.n = 2], [C0 EXCEPT !.op = "write", !.h = h, !.data = <<3>>],
             [C0 EXCEPT !.op = "writeat", !.h = h, !.data = <<3>>, !.off = 0], [C0 EXCEPT !.op = "writestring", !.h = h, !.data = <<3>>],
             [C0 EXCEPT !.op = "ftruncate", !.h = h, !.n = 0], [C0 EXCEPT !.op = "fchmod", !.h = h, !.perm = 511],
-            [C0 EXCEPT !.op = "fchown", !.h = h, !.uid = 1001, !.gid = 1001], [C0 EXCEPT !.op = "fsync", !.h = h],
+            [C0 EXCEPT !.op = "fchown", !.h = h, !.uid = 1001, !.gid = 1001], [C0 EXCEPT !.op = "fchown", !.h = h, !.uid = -1, !.gid = 1001],
+            [C0 EXCEPT !.op = "fchown", !.h = h, !.uid = 1001, !.gid = -1], [C0 EXCEPT !.op = "fchown", !.h = h, !.uid = -1, !.gid = -1],
+            [C0 EXCEPT !.op = "fsync", !.h = h],
             [C0 EXCEPT !.op = "seek", !.h = h, !.off = 1, !.wh = 0], [C0 EXCEPT !.op = "fstat", !.h = h],
             [C0 EXCEPT !.op = "freaddirnames", !.h = h, !.n = -1], [C0 EXCEPT !.op = "close", !.h = h]}
            : h \in DOMAIN s.h}
@@ -87,7 +89,7 @@ WrapCalls(s) ==
     \cup {[C0 EXCEPT !.op = "truncate", !.p = p, !.n = 0] : p \in Paths}
     \cup {[C0 EXCEPT !.op = "chmod", !.p = p, !.perm = 511] : p \in Paths}
     \cup {[C0 EXCEPT !.op = "chtimes", !.p = p, !.n = 7] : p \in Paths}
-    \cup {[C0 EXCEPT !.op = o, !.p = p, !.uid = 1001, !.gid = 1001] : o \in {"chown", "lchown"}, p \in Paths}
+    \cup {[C0 EXCEPT !.op = o, !.p = p, !.uid = u, !.gid = g] : o \in {"chown", "lchown"}, p \in Paths, u \in {1001, -1}, g \in {1001, -1}}
     \cup {[C0 EXCEPT !.op = o, !.p = p, !.q = RelP(<<"a">>), !.data = <<3>>] : o \in {"subwrite", "submkdir"}, p \in Paths \cup {WorkP}}
     \* enumeration through the wrapper (C14); FailFS's Glob is a composite whose consultations are not specified
     \cup {[C0 EXCEPT !.op = "walk", !.p = p, !.n = k, !.flag = <<a>>] : p \in {WorkP}, k \in {0, 2}, a \in {"SkipDir", "SkipAll"}}
@@ -102,6 +104,16 @@ WKind == IF Kind = "rofs-sym" THEN "rofs" ELSE Kind
 \* C11: views at /w/B (BpBase tree), at / and at /w; calls as for BasePathFS plus the per-view setters
 SubDirs == IF "VERIF_SUBALL" \in DOMAIN IOEnv THEN {<<"w", "B">>, <<"w">>, <<>>} ELSE {<<"w", "B">>}
 SubCalls == BpCalls \cup {[C0 EXCEPT !.op = "setumask", !.perm = m] : m \in {0, 63}}
+\* calls on the parent itself (v = 9), interleaved with the calls through the view: what the parent does inside the
+\* view's directory is visible through the view at once, and its own working directory and umask stay its own
+ParentCalls ==
+    {[C0 EXCEPT !.v = 9, !.op = "mkdir", !.p = p, !.perm = 493] : p \in {AbsP(<<"w", "B", "b">>), AbsP(<<"w", "b">>)}}
+    \cup {[C0 EXCEPT !.v = 9, !.op = "writefile", !.p = p, !.data = <<3>>, !.perm = 438] : p \in {AbsP(<<"w", "B", "f">>), AbsP(<<"w", "B", "b">>)}}
+    \cup {[C0 EXCEPT !.v = 9, !.op = "remove", !.p = p] : p \in {AbsP(<<"w", "B", "f">>), AbsP(<<"w", "B", "a">>)}}
+    \cup {[C0 EXCEPT !.v = 9, !.op = "rename", !.p = AbsP(<<"w", "B", "a">>), !.q = AbsP(<<"w", "B", "b">>)]}
+    \cup {[C0 EXCEPT !.v = 9, !.op = "chdir", !.p = p] : p \in {AbsP(<<"w", "B", "a">>), AbsP(<<"w">>)}}
+    \cup {[C0 EXCEPT !.v = 9, !.op = "setumask", !.perm = 7]}
+    \cup {[C0 EXCEPT !.v = 9, !.op = "chmod", !.p = AbsP(<<"w", "B", "f">>), !.perm = 384]}
 
 \* FailFS fault plans: the first or second consultation of a primitive fails
 PlanFns == {"OpenFile", "FileWrite", "FileClose", "FileRead", "FileStat", "FileReadDir", "ReadFile", "ReadDir", "Mkdir",
@@ -123,8 +135,8 @@ RunAll(s, cs) == IF cs = <<>> THEN s ELSE RunAll(Apply(s, Head(cs)).st, Tail(cs)
 
 \* C11: the parent may have its own working directory and umask when the view is made (neither may change, then or later)
 SubBases == {BpBase,
-             BpBase \o <<[C0 EXCEPT !.op = "chdir", !.p = AbsP(<<"w", "B">>)]>>,
-             BpBase \o <<[C0 EXCEPT !.op = "chdir", !.p = AbsP(<<"w">>)], [C0 EXCEPT !.op = "setumask", !.perm = 63]>>}
+             BpBase \o <<[C0 EXCEPT !.op = "chdir", !.p = AbsP(<<"w", "B">>)], [C0 EXCEPT !.op = "setumask", !.perm = 63]>>}
+             \cup (IF "VERIF_SUBALL" \in DOMAIN IOEnv THEN {BpBase \o <<[C0 EXCEPT !.op = "chdir", !.p = AbsP(<<"w">>)]>>} ELSE {})
 Init == /\ hist \in (IF Kind = "sub" THEN SubBases ELSE IF Kind = "basepath" THEN {BpBase} ELSE {<<>>})
         /\ st = RunAll(InitSt, hist)
         /\ w = "none" /\ wh = <<>> /\ last = [call |-> C0, res |-> R0] /\ wx = X0
@@ -149,16 +161,19 @@ Through(s, c) ==
 
 Call ==
     /\ w # "none" /\ Len(wh) < WrapLen /\ ~PlanFired
-    /\ \E c \in (IF Kind = "basepath" THEN BpCalls ELSE IF Kind = "sub" THEN SubCalls ELSE WrapCalls(st)) :
+    /\ \E c \in (IF Kind = "basepath" THEN BpCalls ELSE IF Kind = "sub" THEN SubCalls \cup ParentCalls ELSE WrapCalls(st)) :
                                   LET o == Through(st, c)
                                       rp == Res(st, IF Kind = "basepath" THEN ToBase(st, c.p)
-                                                    ELSE IF Kind = "sub" THEN ToBaseD(wx.dir, wx.vcwd, c.p) ELSE c.p, FALSE) IN
+                                                    ELSE IF Kind = "sub" /\ c.v # 9 THEN ToBaseD(wx.dir, wx.vcwd, c.p) ELSE c.p, FALSE) IN
           \* removing or moving the working directory (or an ancestor of it) is outside the universe
           /\ ~(c.op \in {"remove", "removeall", "rename"} /\ rp.err = "ok" /\ rp.id # Root /\ rp.id \in Range(st.cwd))
+          \* ... and so is the parent removing or moving the view's working directory from under it
+          /\ ~(Kind = "sub" /\ c.v = 9 /\ c.op \in {"remove", "removeall", "rename"}
+               /\ LET vc == wx.dir \o wx.vcwd IN Len(c.p.parts) <= Len(vc) /\ SubSeq(vc, 1, Len(c.p.parts)) = c.p.parts)
           \* C11 speaks of relative paths only "once the view's working directory has been set through the view":
           \* when the parent had a working directory of its own, a relative path needs a Chdir through the view first
           /\ ((Kind = "sub" /\ st.cwdn # <<>> /\ ((~c.p.abs /\ c.op # "setumask") \/ (c.op \in {"rename", "link"} /\ ~c.q.abs)))
-                 => (last.call.op = "chdir" /\ last.res.err = "ok" /\ wh # <<>>))
+                 => (c.v # 9 /\ last.call.op = "chdir" /\ last.call.v # 9 /\ last.res.err = "ok" /\ wh # <<>>))
           \* under a fault plan only calls that consult the planned primitive are of interest
           \* (opening a handle is allowed too: the File primitives can only be consulted on one)
           /\ ((w # "sub" /\ wx.plan.fn # "none") => (c.op = "open" \/ \E i \in DOMAIN o.cons : o.cons[i] = wx.plan.fn))
@@ -183,7 +198,7 @@ RoRefusesMutators == [][(w \in {"rofs", "failro"} /\ w' = w /\ last'.call.op \in
 BpConfines == [][(w = "basepath" /\ w' = w) => Outside(st') = Outside(st)]_vars
 
 \* C11 on the specification: a view reaches nothing outside its directory and never changes the parent's own state
-SubConfines == [][(w = "sub" /\ w' = w) => (OutsideD(wx.dir, st') = OutsideD(wx.dir, st)
+SubConfines == [][(w = "sub" /\ w' = w /\ last'.call.v # 9) => (OutsideD(wx.dir, st') = OutsideD(wx.dir, st)
                                              /\ st'.umask = st.umask /\ st'.cwdn = st.cwdn /\ st'.uid = st.uid)]_vars
 
 \* C12 on the specification: an injected failure is returned as such, and without a plan FailFS is the base
